@@ -58,28 +58,32 @@ def witnesses_c07(tier, seed):
 PROPS['C07'] = dict(
     level_text='Proof (Verus, unbounded): for every image, generate_hex_from_segment returns the rendering of a record list that an '
                'independent Intel HEX reader (spec fold) decodes to exactly the image, and it succeeds up to 4 GiB; generate_hex puts the flash '
-               'image into .code and the EEPROM image into .eeprom through that function, empty images included. Rendering by the '
-               'ihex crate, CRLF conversion and file I/O are assumed and exercised only by a bounded native witness family.',
+               'image into .code and the EEPROM image into .eeprom through that function, empty images included; write_code_hex / write_eeprom_hex '
+               'leave at the given path exactly the CRLF form of the text of THEIR image (file system as an explicit parameter; std File semantics '
+               'assumed). Rendering by the ihex crate and the CRLF conversion itself are assumed and exercised only by a bounded native witness family.',
     level_note='assumes the ihex crate renders records correctly, std slice/Vec contracts, rewrite R5 (chunks/enumerate as index loop); '
                'write_*_hex I/O wrapper covered by bounded witnesses only (each written over an existing, longer file at the same path: the '
                'result must be the new file alone)',
     technique='Verus loop invariant + postcondition against a spec-level Intel HEX reader, on the extracted function',
     verus=['hex'],
     witnesses=witnesses_c07,
-    functions=['writer::generate_hex_from_segment (src/writer.rs) -- extracted verbatim, rules R5 R1', 'writer::generate_hex -- verbatim'],
+    functions=['writer::generate_hex_from_segment (src/writer.rs) -- extracted verbatim, rules R5 R1', 'writer::generate_hex -- verbatim',
+               'writer::write_code_hex, writer::write_eeprom_hex -- verbatim over an explicit file-system parameter (RW)'],
     explanation='Verus proves, for every byte slice (no length bound), that generate_hex_from_segment returns the ihex rendering of a record '
                 'list which an independent Intel HEX reader (spec fold rd/rd_step in contracts/hex.vspec) decodes to exactly the image: '
                 'every byte once at its address, none elsewhere, one EOF record at the end, and that it succeeds for every image of at '
-                'most 4 GiB.  Panic-freedom (index, overflow, cast) of the body is part of the same obligations.',
+                'most 4 GiB.  Panic-freedom (index, overflow, cast) of the body is part of the same obligations.  write_code_hex / '
+                'write_eeprom_hex: on success the file at the given path holds, alone and whole (whatever it held before), the CRLF form of a text '
+                'that decodes to the flash / EEPROM image respectively (not the other one), followed by at most one more line end; no other file changes.',
     assumptions=[
         'A-ihex: ihex::create_object_file_representation renders each Record as one well-formed line with a valid checksum and fails '
         'only for a missing/duplicate EOF or a data record > 255 bytes (external crate, contract assumed from its source)',
-        'write_code_hex / write_eeprom_hex (LF->CRLF replacement, File::create, write_all) are I/O and string code outside the '
-        'verifier: covered only by the bounded witness family (listed lengths, decoded by spec/ihex_sem.py)',
+        'write_code_hex / write_eeprom_hex are verified over an explicit file-system parameter (rule RW: `vfw_fs` added to their signatures): '
+        'File::create truncates or creates the file at the path, write_all appends all bytes, write appends a prefix of them (std: Ok(n), n <= len) -- '
+        'assumed std semantics; str::replace("\\n", "\\r\\n") and String::as_bytes are the uninterpreted crlf() / utf8(): that the CRLF form still '
+        'decodes is covered only by the bounded witness family (listed lengths, decoded by spec/ihex_sem.py)',
         'R5: `for (i, c) in s.chunks(16).enumerate()` is replaced by its std definition as an index loop',
         'slices are at most isize::MAX bytes long (Rust language guarantee) ; usize is 64 bit',
-        'write_*_hex cannot be given a postcondition here: the File they write is a local that is dropped, and no ghost file-system state can be '
-        'threaded through without adding parameters to the real functions',
     ],
     trusted=['ihex 3.0 crate', 'std Vec / slice::to_vec contracts from vstd'],
     bounded=['witness family: image lengths 0,1,15,16,17,255,256,4097,65535,65536,65537 (quick) plus every length below 600 and the '
